@@ -7,6 +7,7 @@ pub mod c25;
 pub mod c26;
 pub mod c30;
 pub mod c31;
+pub mod stress;
 pub mod srvchk;
 pub mod c10;
 pub mod c11;
@@ -59,6 +60,7 @@ pub fn lookup(id: &str) -> Option<Entry> {
         "C26" | "C27" => e!(c26),
         "C30" => e!(c30),
         "C31" => e!(c31),
+        "C28S" | "C32S" => e!(stress),
         _ => None,
     }
 }
